@@ -507,7 +507,11 @@ func (a *Authenticator) ClientHandshake(ctx context.Context) (*SecurityNegotiati
 
 	if serverAddr != "" && a.config.Command >= 0 {
 		cmdStr := fmt.Sprintf("%d", a.config.Command)
-		if entry, ok := cache.LookupByCommand(a.config.SecurityTag, serverAddr, cmdStr); ok {
+		// Only a session that carries an AES key can be resumed (the key is what
+		// protects the resumed connection); a keyless cached session falls through to
+		// a full handshake.
+		if entry, ok := cache.LookupByCommand(a.config.SecurityTag, serverAddr, cmdStr); ok &&
+			entry.KeyInfo() != nil && len(entry.KeyInfo().Data) > 0 && isAESGCM(CryptoMethod(entry.KeyInfo().Protocol)) {
 			slog.Info(fmt.Sprintf("🔐 CLIENT: Found cached session %s for %s, attempting to resume...",
 				redactSessionID(entry.ID()), serverAddr), "destination", "cedar")
 
@@ -675,6 +679,12 @@ func (a *Authenticator) handleSessionResumption(ctx context.Context, sessionID s
 				entry, ok, cache = e, true, global
 			}
 		}
+	}
+	// A resumed connection is protected only by the session key: a session that
+	// carries no AES key cannot be resumed (anyone able to guess its identifier
+	// would inherit its identity, and everything after the reply would be clear).
+	if ok && (entry.KeyInfo() == nil || len(entry.KeyInfo().Data) == 0 || !isAESGCM(CryptoMethod(entry.KeyInfo().Protocol))) {
+		ok = false
 	}
 	if !ok {
 		slog.Info(fmt.Sprintf("🔐 SERVER: Session %s not found or expired", redactSessionID(sessionID)), "destination", "cedar")
